@@ -6,7 +6,7 @@ CONSTANTS
   Dev = {}
   LENS = {1, 170, 171, 355}
   HDRS = {"pts", "none", "full"}
-  AFS = {"none", "raipcr", "priv10", "big"}
+  AFS = {"none", "raipcr", "priv10", "big", "bigrai"}
   BIGS = {FALSE, TRUE}
   PKTS = {"null", "toobig", "pcr"}
 VIEW View
